@@ -11,6 +11,7 @@ import JSV.Proofs.ResKnown
 import JSV.Proofs.ResMono
 import JSV.Proofs.ResUri
 import JSV.Proofs.ResDesigRefs
+import JSV.Proofs.ResDesigMulti
 namespace JSV.C03
 open JSV Go Go.RInv
 
@@ -314,7 +315,7 @@ theorem anchors_exact (env : Env) (draft : Draft) (root : NodeId) (ret : Uri.Url
 
 /-- C. One call of resolveRef that loads no document (`s'.log = s.log`), in a state in which
     resolveURIs has run for the document (`StaticInv`: ResDesigRefs.lean; resolver.resolve establishes it,
-    see `resolve_sound_partial`): the schema returned is the one `ref` designates — the reference is
+    see `resolve_sound_selfcontained`): the schema returned is the one `ref` designates — the reference is
     resolved against the base URI of `id`, the fragment-less URI identifies a resource `r` of the
     document, and the fragment selects inside `r` (empty: `r`; `/…`: JSON Pointer from `r`; otherwise
     the schema of `r` declaring that plain name).  Never another target. -/
@@ -326,12 +327,30 @@ theorem resolveRef_designates (env : Env) (recDoc : ResolveDoc) (hrec : RecSpec 
     (⟨env.st, draft, root⟩ : Doc).Designates ret id ref o.target :=
   (resolveRef_local env recDoc hrec ⟨env.st, draft, root⟩ rfl ret s id ref o s' hinv hid h hlog).2.2
 
-/-- C, in general (a document may be loaded): which resource the fragment-less URI is looked up to
-    (`Located`: the document's `uris`, else the `loaded` cache, else the Loader followed by the
-    recursive resolution) and the fragment dispatch with the anchors read from the table
-    (`TableFrag`).  With sound anchors for the document that contains `r` (`anchors_sound`),
-    `tableFrag_desig` turns `TableFrag` into `Doc.FragTarget`. -/
-theorem resolveRef_designates_partial (env : Env) (recDoc : ResolveDoc) (root : NodeId) (s : RState)
+/-- C, in general (documents may be loaded).  In a state satisfying the invariant of all documents
+    (`GInv`: ResDesigMulti.lean; `rets r` = the retrieval URI of document `r`), with a Loader satisfying
+    the freshness assumption and a recursive resolver satisfying its specification (`RecG`, which
+    `resolveDoc env fuel` does: `resolveDoc_G`), the schema resolveRef returns is the designated one among
+    the documents resolved when it returns. -/
+theorem resolveRef_designates_among (env : Env) (top : NodeId) (recDoc : ResolveDoc)
+    (hrec : RecG env top recDoc) (hfresh : LoaderFresh env top) (rets : NodeId → Uri.Url) (s : RState)
+    (root id : NodeId) (ref : String) (o : RefOut) (s' : RState) (hg : GInv env top rets s)
+    (hid : Reach env.st root id) (h : resolveRef env recDoc root s id ref = .ok (o, s')) :
+    ∃ rets' d, s.doc? root = some d ∧ GInv env top rets' s' ∧
+      DesignatesAmong (docsOf env rets' s') ⟨env.st, d.draft, root⟩ (rets root) id ref o.target := by
+  obtain ⟨rets', d, hag, hg', _, _, _, hd, hdes⟩ :=
+    resolveRef_G env top recDoc hrec hfresh rets s root id ref o s' hg hid h
+  refine ⟨rets', d, hd, hg', ?_⟩
+  have := gDesig_among env rets' s' _ id ref o.target hdes
+  rw [show (⟨env.st, d.draft, root⟩ : Doc).root = root from rfl,
+    hag root (by unfold Registered; rw [hd]; rfl)] at this
+  exact this
+
+/-- resolveRef unfolded into table lookups, without any hypothesis: which resource the fragment-less
+    URI is looked up to (`Located`: the document's `uris`, else the `loaded` cache, else the Loader
+    followed by the recursive resolution) and the fragment dispatch with the anchors read from the
+    table (`TableFrag`). -/
+theorem resolveRef_lookup (env : Env) (recDoc : ResolveDoc) (root : NodeId) (s : RState)
     (id : NodeId) (ref : String) (o : RefOut) (s' : RState)
     (h : resolveRef env recDoc root s id ref = .ok (o, s')) :
     ∃ refURI info base bInfo bu d r,
@@ -342,12 +361,11 @@ theorem resolveRef_designates_partial (env : Env) (recDoc : ResolveDoc) (root : 
   resolveRef_unfold env recDoc root s id ref o s' h
 
 /-- D, for resolutions that load no other document (`rs.log = []`; in particular every
-    self-contained document): every `$ref` of `root.all()` has a recorded target and it is the schema
-    the reference designates, with `b` = the parsed base URI option (or the empty URL) as retrieval
-    URI.  Missing for the general statement: resolutions that load documents need the model's
-    freshness assumption on loader documents (no schema object shared between documents) as a
-    hypothesis, and a `Doc.Identifies` that ranges over the loaded documents. -/
-theorem resolve_sound_partial (env : Env) (fuel : Nat) (root : NodeId) (base : String) (rs : Resolved)
+    self-contained document), without any assumption on the Loader: every `$ref` of `root.all()` has a
+    recorded target and it is the schema the reference designates, with `b` = the parsed base URI option
+    (or the empty URL) as retrieval URI.  (`resolve_sound` below is the statement for resolutions
+    that load documents.) -/
+theorem resolve_sound_selfcontained (env : Env) (fuel : Nat) (root : NodeId) (base : String) (rs : Resolved)
     (h : Go.resolve env fuel root base = .ok rs) (hlog : rs.log = []) :
     ∃ b, retrievalOf base = .ok b ∧
       ∀ id ∈ allNodes env.st (env.st.size + 2) [root], ∀ n, env.st.get? id = some n → n.ref ≠ "" →
@@ -362,6 +380,32 @@ theorem resolve_sound_partial (env : Env) (fuel : Nat) (root : NodeId) (base : S
   rw [hinfos, lookupNat_filter_key id (fun x => d.known.contains x) s.infos
     (hknown id (allNodes_sub_checkStructure env.st _ _ root fresh hfresh id hid))]
   exact hi
+
+/-- D, in general.  Assumption (`LoaderFresh`, the model's "fresh nodes per document"): the Loader's
+    documents share no schema object with the root document or with each other.  Then every `$ref` of
+    `root.all()` has a recorded target, and it is the designated one among the documents the resolution
+    touched (`docs`: the root document with the retrieval URI `b`, and Loader documents, each with the
+    URI it was loaded from): the reference is resolved against the base URI of its schema; the
+    fragment-less URI identifies a resource of the root document, or the root of one of `docs`; the
+    fragment selects inside that document. -/
+theorem resolve_sound (env : Env) (fuel : Nat) (root : NodeId) (base : String) (rs : Resolved)
+    (hfresh : LoaderFresh env root) (h : Go.resolve env fuel root base = .ok rs) :
+    ∃ b docs, retrievalOf base = .ok b ∧
+      (∀ e ∈ docs, e.1.st = env.st ∧ ((e.1.root = root ∧ e.2 = b) ∨
+        ∃ tbl, env.loader = some tbl ∧ Json.lookup (Uri.toString e.2) tbl = some (.doc e.1.root))) ∧
+      ∀ id ∈ allNodes env.st (env.st.size + 2) [root], ∀ n, env.st.get? id = some n → n.ref ≠ "" →
+        ∃ info t, lookupNat id rs.infos = some info ∧ info.resolvedRef = some t ∧
+          DesignatesAmong docs ⟨env.st, rs.draft, root⟩ b id n.ref t := by
+  obtain ⟨s, b, d, rets, hb, hret, _, _, hg, hok⟩ := resolve_G env fuel root base rs hfresh h
+  refine ⟨b, docsOf env rets s, hb, ?_, ?_⟩
+  · have := docsOf_spec env root rets s hg
+    rw [hret] at this
+    exact this
+  · intro id hid n hn hne
+    obtain ⟨info, t, hi, ht, hdes⟩ := hok id hid n hn hne
+    have := gDesig_among env rets s _ id n.ref t hdes
+    rw [show (⟨env.st, rs.draft, root⟩ : Doc).root = root from rfl, hret] at this
+    exact ⟨info, t, hi, ht, this⟩
 
 end designation
 
@@ -416,7 +460,7 @@ example : dsDoc.FragTarget 2 "" 2 := by
   rw [if_pos rfl]
 example : Uri.toString (baseUriAlong dsDoc {} [2, 7]) = "http://a/sub.json" := by decide +kernel
 example : Uri.toString (baseUriAlong dsDoc {} [3]) = "http://a/root.json" := by decide +kernel
-/-- `resolve_sound_partial` applies to the run above and yields, for the reference in schema 7 (inside the
+/-- `resolve_sound_selfcontained` applies to the run above and yields, for the reference in schema 7 (inside the
     embedded resource), a designation whose target is the recorded one, 6 — not the `foo` of the root
     resource, 1 -/
 example : dsDoc.Designates {} 7 "#foo" 6 := by
@@ -428,7 +472,7 @@ example : dsDoc.Designates {} 7 "#foo" 6 := by
     rw [hr] at hc
     simp only [Bool.and_eq_true, beq_iff_eq] at hc
     obtain ⟨⟨hlog, hdraft⟩, h7⟩ := hc
-    obtain ⟨b, hb, hall⟩ := resolve_sound_partial dsEnv 1 0 "" rs hr hlog
+    obtain ⟨b, hb, hall⟩ := resolve_sound_selfcontained dsEnv 1 0 "" rs hr hlog
     have hb' : b = {} := by
       have : retrievalOf "" = .ok ({} : Uri.Url) := rfl
       rw [this] at hb
@@ -465,6 +509,62 @@ example : ((Go.resolve d7Env 1 0 "").bind fun rs => .ok (rs.draft == .d7)) = .ok
 example : d7Doc.ResourceRoot 2 0 := ⟨[2], by decide +kernel, by decide +kernel⟩
 example : d7Doc.AnchorTarget 0 "foo" 1 :=
   ⟨⟨[1], by decide +kernel, by decide +kernel⟩, false, _, rfl, by decide +kernel⟩
+
+/-- the universe `exEnv` (root document 0, Loader document 3) satisfies the freshness assumption -/
+theorem exEnv_fresh : LoaderFresh exEnv 0 := by
+  intro tbl htbl
+  have ht : tbl = [("http://a/other.json", .doc 3)] := by
+    have : exEnv.loader = some [("http://a/other.json", .doc 3)] := rfl
+    rw [this] at htbl
+    simp only [Option.some.injEq] at htbl
+    exact htbl.symm
+  subst ht
+  have hkey : ∀ k r, Json.lookup k [("http://a/other.json", LoaderResult.doc 3)] = some (.doc r) →
+      k = "http://a/other.json" ∧ r = 3 := by
+    intro k r h
+    rw [Json.lookup_cons] at h
+    split at h
+    · rename_i hk
+      simp only [Option.some.injEq, LoaderResult.doc.injEq] at h
+      exact ⟨hk.symm, h.symm⟩
+    · simp at h
+  constructor
+  · intro k r hk b hb hb0
+    obtain ⟨_, rfl⟩ := hkey k r hk
+    have h1 := reach_sub_closed exStore [3, 4] 3 b (by simp) (by decide +kernel) hb
+    have h2 := reach_sub_closed exStore [0, 1, 2] 0 b (by simp) (by decide +kernel) hb0
+    simp only [List.mem_cons, List.mem_nil_iff, or_false] at h1 h2
+    rcases h1 with rfl | rfl <;> simp at h2
+  · intro k1 k2 r1 r2 hne h1 h2
+    exact absurd ((hkey k1 r1 h1).1.trans (hkey k2 r2 h2).1.symm) hne
+
+/-- so `resolve_sound` applies to the resolution of `exEnv`: the reference `other.json#/$defs/x` of schema 1
+    designates, among the documents resolved, the recorded target 4 (in the Loader document) -/
+example : ∃ b docs, DesignatesAmong docs ⟨exStore, .d2020, 0⟩ b 1 "other.json#/$defs/x" 4 := by
+  have hc : (match Go.resolve exEnv 5 0 "" with
+      | .ok rs => rs.draft == .d2020 && ((lookupNat 1 rs.infos).bind (·.resolvedRef)) == some 4
+      | _ => false) = true := by decide +kernel
+  cases hr : Go.resolve exEnv 5 0 "" with
+  | ok rs =>
+    rw [hr] at hc
+    simp only [Bool.and_eq_true, beq_iff_eq] at hc
+    obtain ⟨hdraft, h1⟩ := hc
+    obtain ⟨b, docs, _, _, hall⟩ := resolve_sound exEnv 5 0 "" rs exEnv_fresh hr
+    obtain ⟨info, t, hi, ht, hd⟩ := hall 1 (by decide +kernel) { ref := "other.json#/$defs/x" } rfl (by decide)
+    rw [hi] at h1
+    simp only [Option.bind_some, ht, Option.some.injEq] at h1
+    subst h1
+    rw [hdraft] at hd
+    exact ⟨b, docs, hd⟩
+  | fuel => rw [hr] at hc; exact absurd hc (by simp)
+  | panic => rw [hr] at hc; exact absurd hc (by simp)
+  | err => rw [hr] at hc; exact absurd hc (by simp)
+
+/-- the universe of the counterexample above (`cxEnv`: one document object served under two URIs)
+    violates the assumption -/
+example : ¬ LoaderFresh cxEnv 0 := by
+  intro h
+  exact (h _ rfl).2 "http://a/x" "http://a/y" 3 3 (by decide) rfl rfl 3 (reach_root _ 3) (reach_root _ 3)
 
 end designation_examples
 
